@@ -10,7 +10,7 @@ from trie.exceptions import NodeOverrideError  # noqa: E402
 from eth_hash.auto import keccak  # noqa: E402
 
 ID = "C12"
-LEAN_IMPORTS = ["PyTrie.Props.C12", "PyTrie.Props.RawLevel", "PyTrie.Props.NonVacuity", "PyTrie.Props.NonVacuity2", "PyTrie.Props.NonVacuity3", "PyTrie.Props.C12History", "PyTrie.Props.NonVacuity10"]
+LEAN_IMPORTS = ["PyTrie.Props.C12", "PyTrie.Props.RawLevel", "PyTrie.Props.NonVacuity", "PyTrie.Props.NonVacuity2", "PyTrie.Props.NonVacuity3", "PyTrie.Props.C12History", "PyTrie.Props.NonVacuity10", "PyTrie.Props.C12Refusals", "PyTrie.Props.NonVacuity13"]
 THEOREMS = [
     "PyTrie.Props.C12.canon_run",
     "PyTrie.Props.C12.get_step",
@@ -54,6 +54,13 @@ THEOREMS = [
     "PyTrie.Props.NonVacuity10.bFinal_functional",
     "PyTrie.Props.NonVacuity10.old_roots_witness",
     "PyTrie.Props.NonVacuity10.old_roots_spec",
+    "PyTrie.Props.Raw.binReachAll_run",
+    "PyTrie.Props.Raw.bin_history_with_refusals",
+    "PyTrie.Props.Raw.bin_history_with_refusals_get",
+    "PyTrie.Props.NonVacuity13.rops_reach",
+    "PyTrie.Props.NonVacuity13.rops_accepted",
+    "PyTrie.Props.NonVacuity13.refusals_witness",
+    "PyTrie.Props.NonVacuity13.refusals_get_witness",
 ]
 RULE = ("histories of set / delete / delete_subtrie (method and dict syntax) over fixed-length and variable-length key pools "
         "with prefix-related keys, keys differing at every bit position of a byte, repeated values; after every call the outcome "
